@@ -4522,3 +4522,6 @@ mod test {
         }
     }
 }
+
+#[cfg(feature = "verif")]
+mod verif_hooks;
